@@ -137,7 +137,7 @@ func (b *Batcher[K, T]) execute(i *item[K, T]) {
 		return
 	}
 	for _, ev := range b.eventChs {
-		verifhook.Point("batcher.execute.beforeSend", ev.id)
+		verifhook.Point("batcher.execute.beforeSend", ev.id, i.value)
 		select {
 		case ev.ch <- i.value:
 		case <-ev.closeEventCh:
